@@ -39,6 +39,12 @@ CHECKS = {
         "For generator and generator_unordered outputs the check decides the completion order batch by batch; whenever a result is due (its batch and all earlier ones completed) next() must deliver exactly the promised value while nothing else is released - delivery only after a later release is the violation witness; unordered outputs must follow completion order, each exactly once. At seeded points the generator is closed (in the dispatching thread or another one), dropped and collected, or the object is called again: no submit or pull may follow, late completions must be harmless, an unfinished run must reject a new call with RuntimeError, and the next call must be exact.",
         "Promptness at batch granularity (statement verbatim for batch_size=1, which the real-backend runs use); 5 s per due result is a watchdog that only classifies - the verdict needs the release witness.",
         "3/C16", "scripted-backend"),
+    "C02": (
+        "exploration",
+        "differential runtime monitor: generated functions (real source) returning typed fingerprints of their bound arguments, each call made through the cached wrapper and through the plain function, over histories with near-colliding twins, call forms, shelving, compression and several fresh processes",
+        "Functions over all signatures with <= 4 parameters (plain, bound methods whose instance state is in the result, async) are written to a scratch module and cached by Memory; histories of 60-150 calls mix equivalent call forms, near-colliding values (1 / 1.0 / True / '1', 'a' / b'a', list / tuple, set / frozenset), dict and set arguments rebuilt in other insertion orders, direct calls and call_and_shelve().get(), compress False / True / 3, in one process or 2-3 fresh processes with different hash seeds sharing the directory. Every cached value must equal the plain function's typed fingerprint.",
+        "Functions are pure by construction; <= 4 parameters; value nesting <= 3; partial objects are driven by C07 only (filter_args returns raw args for them).",
+        "3/C02", "memhist"),
     "C03": (
         "exploration",
         "runtime round-trip monitor: real dump/load on generated objects under sampled (compress, protocol, target, load-from) combinations, structural-isomorphism oracle, renamed-file reloads",
@@ -63,6 +69,12 @@ CHECKS = {
         "2-4 participant processes (some with two threads) run short scripts of cached calls, call_and_shelve, reduce_size, Memory.clear / func.clear and a read-only observer on one cache directory; every watched libc call (reads, stats and directory listings included) blocks until the coordinator grants the turn, so the interleaving is chosen by the check and recorded (its hash is the unit of distinct schedules). Every cached call must return a valid value and must not raise; whatever is visible under a final name, at any scheduled instant (observer) and at the end, must be one complete result - results are writer-specific so a mixture cannot be valid.",
         "File-system calls are serialised: races inside one call's kernel execution are not explored. Participants silent for 0.6 s are skipped, never forced. Exceptions inside clear()/reduce_size() themselves are observations only.",
         "3/C11", "fsshim"),
+    "C06": (
+        "exploration",
+        "execution-count monitor against a set model: the function bodies log their executions; a call whose fingerprint of bound non-ignored arguments is already in the model must execute 0 times (same process or another one), check_call_in_cache must predict it, valid calls must be accepted",
+        "On the same generated functions and histories as C02, now with ignore lists (every subset of <= 2 names incl. '*' and '**') and varied values for ignored parameters, the model is the set of fingerprints computed so far per function (per instance state for methods). Each call is preceded by check_call_in_cache (must equal membership in the model), must execute the body exactly once when new and not at all when known - whatever the call form, dict / set insertion order, process or PYTHONHASHSEED - and must never be rejected when the plain function accepts it.",
+        "No eviction / clear / source change in these histories (C18 / C12 cover those); cross-process reuse asserted for functions importable by name.",
+        "3/C06", "memhist"),
     "C07": (
         "exploration",
         "differential runtime oracle: real filter_args vs inspect.Signature.bind over an exhaustive enumeration of signatures x call shapes",
@@ -167,6 +179,8 @@ def main():
 NOT_APPLICABLE = {}
 
 ENGINES = [
+    dict(name="memhist", path="vlib/memhist.py", serves_properties=["C02", "C06"],
+         kind_free_text="generator of cached-function histories: functions with real source returning typed fingerprints, equivalent call forms, near-colliding twins, ignore variants, multi-process segments"),
     dict(name="fsshim", path="native/fsshim.c", serves_properties=["C05", "C11", "C10"],
          kind_free_text="LD_PRELOAD libc interposer (log / crash-at-k / turn-based sched / pipekill modes) with vlib/fssched.py coordinator"),
     dict(name="scripted-backend", path="vlib/scripted_backend.py", serves_properties=["C01", "C04", "C09", "C16"],
